@@ -2161,8 +2161,10 @@ func (r *Raft) isSingleServerCluster() bool {
 }
 
 // pendingConfigurationChange returns true if the current configuration
-// has not been committed.
+// has not been committed or a membership change submitted to this node
+// has not been applied yet.
 func (r *Raft) pendingConfigurationChange() bool {
 	return r.committedConfiguration == nil ||
-		r.committedConfiguration.Index != r.configuration.Index
+		r.committedConfiguration.Index != r.configuration.Index ||
+		r.configurationResponseCh != nil
 }
